@@ -1,0 +1,38 @@
+//go:build verif
+
+// Contracts for batched quorum writes (C10), checked by /verif/govc (comment-only file).
+
+package ring
+
+//@ # Interface contract of DoBatchRing.Get (proved for Ring.Get under C01 where claimed; assumed for other implementations):
+//@ # a successful lookup returns at least one instance.
+//@ assume func DoBatchRing.Get
+//@   ensures r1 == nil ==> len(r0.Instances) >= 1
+//@
+//@ assume func DoBatchRing.InstancesCount
+//@   pure
+//@ assume func DoBatchRing.ReplicationFactor
+//@   pure
+//@
+//@ func DoBatchOptions.replaceZeroValuesWithDefaults
+//@   property C10
+//@   ensures o.Cleanup != nil && o.IsClientError != nil && o.Go != nil
+//@
+//@ func DoBatchWithOptions
+//@   property C10
+//@   ghost var cleanups int = 0
+//@   ghost var spawned bool = false
+//@   at after@o.Cleanup: cleanups := cleanups + 1
+//@   at before@o.Go: spawned := true
+//@   # progress: when the function reaches the wait, at least one replica call exists (otherwise neither done nor err can ever be signalled)
+//@   at before@o.Go: assert len(instances) > 0 && len(itemTrackers) > 0
+//@   # early exits clean up exactly once and start no replica call
+//@   at exit: assert !spawned ==> cleanups == 1
+//@   at exit: assert spawned ==> cleanups == 0
+//@   loop 0 invariant len(itemTrackers) == len(keys) && cleanups == 0 && !spawned && !isnil(instances) && ($i > 0 ==> len(instances) > 0)
+//@   loop 0 invariant forall a string :: in(a, instances) ==> len(instances[a].indexes) == len(instances[a].itemTrackers) && len(instances[a].indexes) >= 1
+//@   loop 0 invariant forall a string :: in(a, instances) ==> (forall j int :: 0 <= j && j < len(instances[a].indexes) ==> 0 <= instances[a].indexes[j] && instances[a].indexes[j] < $i)
+//@   loop 1 invariant len(itemTrackers) == len(keys) && cleanups == 0 && !spawned && !isnil(instances) && ($i > 0 || i > 0 ==> len(instances) > 0)
+//@   loop 1 invariant forall a string :: in(a, instances) ==> len(instances[a].indexes) == len(instances[a].itemTrackers) && len(instances[a].indexes) >= 1
+//@   loop 1 invariant forall a string :: in(a, instances) ==> (forall j int :: 0 <= j && j < len(instances[a].indexes) ==> 0 <= instances[a].indexes[j] && instances[a].indexes[j] <= i)
+//@   loop 2 invariant cleanups == 0
